@@ -118,8 +118,14 @@ private:
 
                 if (abs(Eigen::numext::imag(lambdaj)) > eps)
                 {
-                    m_ritz_val[i + 1] = Eigen::numext::conj(lambdaj);
-                    i++;
+                    // The next entry is the conjugate partner only if the two Ritz values
+                    // were exact conjugates before the transformation. Otherwise it is a
+                    // different Ritz pair that must be transformed on its own, not overwritten
+                    if (nu.imag() != Scalar(0) && m_ritz_val[i + 1] == Eigen::numext::conj(nu))
+                    {
+                        m_ritz_val[i + 1] = Eigen::numext::conj(lambdaj);
+                        i++;
+                    }
                 }
                 else
                 {
